@@ -129,6 +129,20 @@ func checkNextSignalingState(cur, next SignalingState, op stateChangeOp, sdpType
 		}
 	}
 
+	// A rollback cancels the exchange started on the same side:
+	// have-local-offer/have-local-pranswer->SetLocal(rollback)->stable
+	// have-remote-offer/have-remote-pranswer->SetRemote(rollback)->stable
+	if sdpType == SDPTypeRollback && next == SignalingStateStable {
+		switch {
+		case op == stateChangeOpSetLocal &&
+			(cur == SignalingStateHaveLocalOffer || cur == SignalingStateHaveLocalPranswer):
+			return next, nil
+		case op == stateChangeOpSetRemote &&
+			(cur == SignalingStateHaveRemoteOffer || cur == SignalingStateHaveRemotePranswer):
+			return next, nil
+		}
+	}
+
 	// 4.3.1 valid state transitions
 	switch cur { // nolint:exhaustive
 	case SignalingStateStable:
